@@ -9,6 +9,6 @@ if diff -q "$S/$file" "/repo/$file" >/dev/null; then echo "SED DID NOT CHANGE AN
 . /verif/verif-env.sh
 (cd "$S" && go build ./... ) || { echo "DOES NOT BUILD"; rm -rf "$S" "$V"; exit 3; }
 for p in "$@"; do
-  VERIF_REPO="$S" VERIF_DIR="$V" /verif/bin/trzszlint check "$p" | grep -v '^   ' | head -${LINES_MAX:-8}
+  VERIF_REPO="$S" VERIF_DIR="$V" ${BIN:-/verif/bin/trzszlint} check "$p" | grep -v '^   ' | head -${LINES_MAX:-8}
 done
 rm -rf "$S" "$V"
